@@ -124,7 +124,10 @@ def run(ctx):
 		else:
 			fn = r.randrange(2715648)
 		pts.append((hsn, maio, n, fn))
-	script = "".join("P %d %d %d %d\n" % p for p in pts).encode()
+	# the firmware's ARFCN numbering carries a band bit (0x8000, PCS 1900) and an uplink bit (0x4000): "the selected
+	# channel is MA[MAI]" whatever the entries look like
+	flags = [r.choice((0, 0, 0x8000, 0x4000, 0xc000)) for _ in pts]
+	script = "".join("P %d %d %d %d %d\n" % (p + (f,)) for p, f in zip(pts, flags)).encode()
 	rc, out, err = cbuild.run(binary, script, timeout = 300)
 	lines = out.decode().split()
 	if rc != 0 or len(lines) != 2 * len(pts):
@@ -137,7 +140,10 @@ def run(ctx):
 		return
 	for k, (hsn, maio, n, fn) in enumerate(pts):
 		ref, dev = hopping.mai(hsn, maio, n, fn)
-		c = int(lines[2 * k + 1]) - 512
+		got = int(lines[2 * k + 1])
+		c = (got & 0x3fff) - 512 if (got & 0xc000) == flags[k] else -1000 - got
+		if flags[k]:
+			ctx.count("points_with_band_or_uplink_bits")
 		p = HP(hsn, maio, ma[:n]).resolve(fn) - 512
 		ctx.seen(hash((hsn, maio, n, fn)))
 		ctx.count("points_random")
